@@ -438,3 +438,43 @@ PROPS["C12"] = dict(
     modelled=["paths as component lists; file names split at the last dot; the filesystem's is_dir as a parameter"],
     assumptions=["valid names: non-empty dot-free segments, dot-free extension (I4)"],
 )
+
+PROPS["C01"] = dict(
+    technique="Coq proof that the sharded map refines a flat map for every hash function, shard count and "
+              "operation sequence; invariant proof over all schedules of racing loaders (one winner seen by "
+              "all, presence monotone); get / insert / contains / take / shard index of both maps and key "
+              "equality / hashing tied to the source; forced-simultaneous-miss races, mixed concurrent "
+              "operations and a handle held across up to 3*10^5 insertions on the real crate",
+    level_text="Theorems (Props/C01.v, closed under the global context): the printed AssetMap::{get,insert,"
+               "contains_key,take,get_shard} of cache.rs and local_cache.rs are keyed look-ups under the read "
+               "lock / entry(key).or_insert under the write lock of the key's own shard / removal of that "
+               "key, with index = hash & (len-1), and keys compare type and id; for EVERY hash function and "
+               "positive shard count the sharded map answers every operation sequence like one flat map; "
+               "or_insert keeps the first value and hands it to everybody; for ANY number of racing loaders "
+               "and ANY schedule two racers that finished on a key hold the same address, the one the map "
+               "holds, and presence and address never change along any continuation.  Partial: that a Box "
+               "keeps its address when the HashMap grows and that the extended lifetime is sound are "
+               "Rust/std facts, exercised (held handle across insertions), not proved.",
+    level_note="Trusted: Coq kernel+VM, rs2v, RwLock mutual exclusion (each map operation is one atomic step "
+               "of the race machine), HashMap is a map.",
+    gen=["CacheMap", "LocalMap", "Private"],
+    model_files=["Ref/Sharded.v"],
+    model_targets=["Ref/Sharded.vo"],
+    proof_files=["Proofs/Sharded.v", "Tie/Maps.v", "Tie/Graph.v", "Props/C01.v"],
+    proof_targets=["Props/C01.vo"],
+    props_module="Props.C01",
+    theorems=["C01_code_maps_as_modelled", "C01_sharded_map_is_a_map", "C01_or_insert_keeps_the_first",
+              "C01_race_has_one_winner_seen_by_all", "C01_presence_is_monotone"],
+    engines=[("racediff", [])],
+    thorough_features=[["parking_lot"]],
+    rule="racediff: (a) 2/4/8/16 threads released together on one key whose loader waits until all racers "
+         "are inside a loader (forced simultaneous misses), through AssetCache and AnyCache, with and "
+         "without reloader: same address, same value token for all, every other loader value dropped at "
+         "once, winner dropped with the cache; (b) 2..8 threads x 200 random load / get_cached / "
+         "get_or_insert / contains on 6 overlapping keys: one address per key, presence never flips back; "
+         "(c) a handle held across 10^4..3*10^5 unrelated insertions keeps address and content.  Every "
+         "round is non-trivial; distinct = round.",
+    trusted_base=["the OS scheduler explores interleavings by chance in the runs; the theorem covers all"],
+    modelled=["keys and addresses as numbers; each map operation atomic; loaders thread-local"],
+    assumptions=["no remove/take/clear during the race (they need &mut self)"],
+)
